@@ -87,6 +87,11 @@ class Real:
                 self.vars.append(self.trs[op[1]][op[2]])
             elif k == "trSlice":
                 self.trs.append(self.trs[op[1]][op[2]:op[3]])
+            elif k == "trCopy":
+                # copy construction (DropletTrack(track)): in the model the same as the full slice
+                self.trs.append(DropletTrack(self.trs[op[1]]))
+            elif k == "tcCopy":
+                self.tcs.append(EmulsionTimeCourse(self.tcs[op[1]]))
             return "ok"
         except (IndexError, ValueError) as e:
             return "err " + type(e).__name__
@@ -124,6 +129,9 @@ class Real:
             out += " [" + "".join(f"{int(t)}:{did(d)} " for t, d in zip(tr.times, tr.droplets)) + "]"
             if len(tr.times) != len(tr.droplets):
                 out += "!MISALIGNED"
+        lists = [tc.times for tc in self.tcs] + [tr.times for tr in self.trs]
+        if any(a is b for i, a in enumerate(lists) for b in lists[:i]):
+            out += "!TIMES-LIST-SHARED"
         out += " O"
         for e in seen_e:
             dt = "-" if e.dtype is None else str(self.layouts.setdefault(str(np.dtype(e.dtype).descr), len(self.layouts) + 1))
@@ -144,6 +152,10 @@ def op_token(op, real: Real) -> str:
         return f"tcAppend {op[1]} {op[2]} {'-' if op[3] is None else op[3]} {int(op[4])}"
     if k == "trAppend":
         return f"trAppend {op[1]} {op[2]} {'-' if op[3] is None else op[3]}"
+    if k == "trCopy":
+        return f"trSlice {op[1]} 0 1000000"
+    if k == "tcCopy":
+        return f"tcSlice {op[1]} 0 1000000"
     return " ".join(str(int(x)) if isinstance(x, bool) else str(x) for x in op)
 
 
@@ -157,7 +169,7 @@ def random_ops(rng, n):
     for _ in range(n):
         k = rng.choice(["newDrop", "setVar", "newEm", "emAppend", "emAppend", "emAppend", "emExtend", "emCopy", "emSlice", "emAdd", "emGet",
                         "emSetMember", "emRemoveSmall", "emClear", "emLink", "newTc", "tcAppend", "tcAppend", "tcGet", "tcSlice", "tcClear",
-                        "newTr", "trAppend", "trAppend", "trGet", "trSlice"])
+                        "newTr", "trAppend", "trAppend", "trGet", "trSlice", "trCopy", "trCopy", "tcCopy"])
         iv, ie, it, ik = rng.randrange(nv + 1), rng.randrange(ne + 1), rng.randrange(nt + 1), rng.randrange(nk + 1)  # +1: sometimes out of range
         if rng.random() < 0.9:
             iv, ie, it, ik = iv % nv, ie % ne, it % nt, ik % nk
@@ -202,6 +214,10 @@ def random_ops(rng, n):
             op = (k, ik, iv, rng.choice([None, None, rng.randint(-3, 9)]))
         elif k == "trGet":
             op = (k, ik, rng.randint(0, 2)); nv += 1
+        elif k == "trCopy":
+            op = (k, ik); nk += 1 if ik < nk else 0
+        elif k == "tcCopy":
+            op = (k, it); nt += 1 if it < nt else 0
         else:
             lo = rng.randint(0, 2); op = (k, ik, lo, lo + rng.randint(0, 3)); nk += 1 if ik < nk else 0
         ops.append(op)
